@@ -10,17 +10,43 @@
 // ResolvePattern on colliding, distinct and catch-all patterns (with and without the
 // RequestID / Trace middlewares) on a muxer built single-threaded, plus concurrent mounting;
 // ValidatePattern; adaptive sampler around the rollover and fixed sampler; MergeErrors on
-// per-thread errors. (FAMILY B, generated servers and clients, plugs into the same worker.)
+// per-thread errors.
+// FAMILY B — generated servers and clients (checks/c20b): for every mounted service of a small
+// corpus of designs covering every handler shape (payload in path/query/header/body,
+// validations, declared errors of every kind and level, undeclared errors, views, Accept
+// negotiation) 2-3 threads each issue one request {valid, invalid, declared error, undeclared
+// error, other view, other Accept} through the generated client over an in-memory wire.
 // Bound: 2-3 threads x 1-2 operations, every schedule with <= 2 preemptions (thorough: 3 for two
 // threads); executions run to completion; explicit step horizon.
 // Oracle: happens-before race oracle over every instrumented access; differential per-thread
 // oracle (status, headers, body modulo error ID equal the thread's result alone on a fresh
-// instance); no deadlock, no panic. Scenario list: checks/c20/scen/scen.go.
+// instance; family B additionally: decoded client result or error, payload received by the
+// service); no deadlock, no panic. Scenario lists: checks/c20/scen/scen.go, checks/c20b/scen/scen.go.
 package main
 
 import (
 	"verif/checks/c20"
+	"verif/checks/c20b"
 	"verif/core"
+	"verif/sched/vrt"
 )
 
-func main() { core.Main("C20", c20.Run, c20.Replay) }
+func run(c *core.Ctx) {
+	c20.Run(c)  // family A: runtime helpers
+	c20b.Run(c) // family B: generated servers and clients
+}
+
+func replay(c *core.Ctx, path string) {
+	var rc vrt.ReplayCase
+	if err := core.ReplayCase(path, &rc); err != nil {
+		c.HarnessError("replay: %v", err)
+		return
+	}
+	if rc.Check == "c20b" {
+		c20b.Replay(c, path)
+		return
+	}
+	c20.Replay(c, path)
+}
+
+func main() { core.Main("C20", run, replay) }
